@@ -118,6 +118,7 @@ pub fn configs() -> Vec<(&'static str, ModelCfg)> {
         ("logic", ModelCfg { max_vars: 4, depth: 2, logic: true, piecewise: false, unbounded: false, fractional: false, strict_cmp: true, hostile: false }),
         ("mixed", ModelCfg { max_vars: 4, depth: 3, logic: true, piecewise: true, unbounded: false, fractional: false, strict_cmp: true, hostile: false }),
         ("hostile", ModelCfg { max_vars: 4, depth: 3, logic: true, piecewise: true, unbounded: true, fractional: false, strict_cmp: true, hostile: true }),
+        ("piecewise-unbounded", ModelCfg { max_vars: 3, depth: 2, logic: false, piecewise: true, unbounded: true, fractional: false, strict_cmp: false, hostile: false }),
         ("deep-piecewise", ModelCfg { max_vars: 2, depth: 4, logic: false, piecewise: true, unbounded: false, fractional: false, strict_cmp: false, hostile: false }),
     ]
 }
@@ -130,7 +131,16 @@ pub fn generate_for(prop: &str, seed: u64, n: usize, _thorough: bool, _corpus: O
     for i in 0..n {
         let (tag, cfg) = &cfgs[i % cfgs.len()];
         let (m, _) = gen_model::model(&mut r, cfg);
-        out.push(one(&m, tag, prop));
+        let c = one(&m, tag, prop);
+        // the same model through the COMPOSED model (bounds port + linearizer port), every third case
+        if i % 3 == 0 {
+            let mut f = c.clone();
+            f.req = format!("linearize-full {} {}", sx::model(&m), sx::num(1e-9));
+            f.oracle = String::new();
+            f.tags.push("full-pipeline".into());
+            out.push(f);
+        }
+        out.push(c);
     }
     out
 }
